@@ -19,11 +19,12 @@ META = {
                   'sound_trajectory / shared_array_like_trj / _tonumpyarray / _init', 'enspara.mpi.io.load_npy_as_striped / '
                   'load_h5_as_striped (world size 1)'],
     'bounds': {'quick': 'save/load: R in {1,2,3,9,10,11,12} rows (crossing the 9->10 digit boundary of the key names), row lengths cycling '
-                        '1..3, symbolic cells, int64 and float64, stride 1..3, key subsets; sound_trajectory: UNBOUNDED frame count, stride '
+                        '1..3, symbolic cells, int64 and float64, stride 1..3, key subsets, a path that already holds an earlier save (6->3, 12->3, 3->12, 2->2 rows); sound_trajectory: UNBOUNDED frame count, stride '
                         '1..8; parallel load: <=3 files of <=3 frames, stride 1..2, frame=, atom selection, both task orders, lengths hint '
                         'none/right/wrong; striped npy/h5 loading: <=3 files, stride 1..2',
                'thorough': 'R up to 101 (99->100 boundary); parallel loads of up to 4 files (length<=5), stride<=3; striped loads of up to 4 files; sound_trajectory stride<=32'},
-    'stubs': ['tables = in-memory store whose list_nodes() returns children sorted by name (checked against real PyTables at run time)',
+    'stubs': ['tables = in-memory store whose list_nodes() returns children sorted by name, with open modes w / a / r, root membership, duplicate-name '
+              'rejection and remove_node (all checked against real PyTables at run time)',
               'mdtraj.load/open = in-memory trajectories honouring stride / frame / atom_indices', 'multiprocessing.Pool = in-process '
               'task runner executing the tasks forward or in reverse order; multiprocessing.Array = shared array',
               'math.ceil on a symbolic real = the integer c with c-1 < x <= c'],
